@@ -26,7 +26,7 @@ for sid in sorted(os.listdir('/verif/seeded')):
     elif not line: verdict='(not run)'
     elif caught: verdict='; '.join(caught)
     else: verdict='**missed** — '+m.get('missed_because','the changed function is not under contract')
-    what=m['summary'].split('.')[0][:150].replace('|','/')
+    what=(m['summary'][:140].rsplit(' ',1)[0]+' …').replace('|','/').replace('\n',' ')
     rows.append('| %s | %s | %s |'%(sid,what,verdict))
 table='| seed | change | reported by (failing obligation) |\n|------|--------|----------------------------------|\n'+'\n'.join(rows)
 sec=sec.replace('SEEDTABLE',table)
